@@ -186,6 +186,15 @@ func (vm *VM) SetContext(ctx context.Context) {
 	vm.env.doneCase = reflect.SelectCase{}
 }
 
+// AllowGoroutines makes the execution ready to be stopped by a goroutine,
+// started by a go statement, that ends with an error. It must be called
+// after SetContext, if the code can execute a go statement.
+//
+// AllowGoroutines must not be called after vm has been started.
+func (vm *VM) AllowGoroutines() {
+	vm.env.cancelable()
+}
+
 // SetRenderer sets template output and markdown converter.
 //
 // SetRenderer must not be called after vm has been started.
@@ -688,6 +697,7 @@ func (vm *VM) startGoroutine() bool {
 	default:
 		return true
 	}
+	vm.env.cancelable()
 	nvm := create(vm.env)
 	vm.pc++
 	off := vm.fn.Body[vm.pc]
@@ -695,7 +705,11 @@ func (vm *VM) startGoroutine() bool {
 	copy(nvm.regs.float, vm.regs.float[vm.fp[1]+Addr(off.A):])
 	copy(nvm.regs.string, vm.regs.string[vm.fp[2]+Addr(off.B):])
 	copy(nvm.regs.general, vm.regs.general[vm.fp[3]+Addr(off.C):])
-	go nvm.runFunc(fn, vars)
+	go func() {
+		if err := nvm.runFunc(fn, vars); err != nil {
+			nvm.env.fail(err)
+		}
+	}()
 	vm.pc++
 	return false
 }
